@@ -350,7 +350,9 @@ C10.manifest = {
             "low-link loop, 29-clause stack / low-link invariant - RETURNS and IS the partition into the classes of mutual "
             "reachability along stored edges, for EVERY neighbour iteration order that permutes each successor set "
             "(C10_scc_wf/_reachable; the order oracle is the only hypothesis left, and it is about HashSet iteration, not "
-            "about the graph). (4) bfs_equal_size_partitions(k) RETURNS for every k >= 1 (C10_equal_size_total_wf); every "
+            "about the graph; for the two orders the Run module evaluates - insertion order and its reverse - none is left: "
+            "C10_scc_run_orders; and the classes do not depend on the order: C10_scc_order_independent, via "
+            "C10_partition_unique). (4) bfs_equal_size_partitions(k) RETURNS for every k >= 1 (C10_equal_size_total_wf); every "
             "returning run has exactly k parts, every node index in exactly one part, no part longer than n/k+1. "
             "The bridge (Proofs/CompWF.v, C10_tests_hold): the former per-case coherence tests / hypotheses - adjacency "
             "query total, closed and symmetric (step_total_b, step_ok_b), predecessors = inverse successors and inside the "
